@@ -47,7 +47,7 @@ WORKLOADS = ["C06", "C07", "C07", "C10", "C10", "C11", "C12", "C13", "C14", "C16
 
 
 def budget(tier):
-    return 1500 if tier == "quick" else 40000
+    return 1000 if tier == "quick" else 40000
 
 
 @st.composite
@@ -391,3 +391,22 @@ def check(spec) -> Outcome:
     for site, n in opens.items():
         out.cls("opensite:" + site)
     return out
+
+
+def extra_evidence():
+    """Trivial source scan for the call sites that could open a file, to set against the `opensite:` classes reached."""
+    import re
+
+    from hv.core import REPO_DIR
+
+    sites = []
+    root = os.path.join(REPO_DIR, "dissect", "hypervisor")
+    pat = re.compile(r"(?<![\w.])open\(|\.open\(|read_text\(|read_bytes\(|os\.open\(|mmap\(")
+    for dp, _dn, fn in os.walk(root):
+        for n in sorted(fn):
+            if n.endswith(".py"):
+                for i, line in enumerate(open(os.path.join(dp, n), errors="replace"), 1):
+                    code = line.split("#", 1)[0]
+                    if pat.search(code) and "def open" not in code and ".open()" not in code.replace(" ", ""):
+                        sites.append(f"{n}:{i}: {code.strip()[:80]}")
+    return {"open_call_sites_in_source": sites}
